@@ -134,3 +134,17 @@ PROPS["C09"] = dict(
     assumptions=[],
     rule="bounded: networks enumerated exhaustively up to the stated size; distinct = distinct (link subset, closed labelling, toggle) triples",
 )
+
+PROPS["C10"] = dict(
+    level="other",
+    explanation="Partial claim. Decided deductively: run_sim's entry code establishes the main-loop invariant for a resumed model (prev < sim_time, "
+                "next rule instant after the last solved time, saved times strictly after every earlier one - cases start=resume of the run_sim protocol "
+                "contract), _compute_next_timestep never returns a time <= the last solved time, update_tank_heads integrates from the previous solved "
+                "head and update_network_previous_values snapshots what the next step reads. Bounded: pause / pickle / continue vs one run on the listed "
+                "networks and pause points (heads, demands, flows, statuses equal to 1e-6). Not decided: equality for every model (determinism of "
+                "numpy/scipy assumed), completeness of the simulator-object state frame (attributes re-derived at entry).",
+    trusted_base=["pickle round trip preserves the model (exercised by the bounded stand-in only)", RT_TRUST],
+    not_decided=["numerical equality of concatenated results for every model", "frame of simulator-object state re-derived on entry (internal graph, control managers): by code reading, not by an obligation"],
+    assumptions=[],
+    rule="bounded: networks x optional added ELSE rule x pause points; distinct = distinct (network, rule, pause) triples",
+)
